@@ -36,6 +36,12 @@ PUBLIC INTERFACE
                                      to pool variables, macro names and namespace names
                                      (alpha-renaming).  Flags f/g and `tree` are not renamed.
     G.interpret(prog, data)       -> rendered text (str) or Failure(exception class name)
+                                     (Failure is a tuple ("error", "<ClassName>"); .cls gives the name)
+    G.PROFILES                    -> names of the label alphabets, see alphabet()
+    G.late_store_pattern(prog), G.loopctl_else_pattern(prog), interpret(..., variant=...)
+                                  -> diagnosis aids used by C03 to give known deviations a
+                                     narrow signature (structural predicate on the program +
+                                     a variant interpreter); never used to accept an output
     G.data_assignments(pool, prog=None, flags=FLAGS, value=7)
                                   -> list of dicts: every pool variable absent / = value,
                                      every flag True / False (only names used by `prog`
@@ -484,6 +490,8 @@ def alphabet(pool, profile):
       "tiny2" nine labels: block set, filter block, recursive loop, namespace store
       "tiny3" twelve labels: macro parameters/defaults, call block, caller, break
       "alias5" eight labels on three variables (out, set, copies, if, for)
+      "deep1" six labels on one variable (out, set, read-modify-write, if, for, with)
+      "macro5" five labels on one variable (out, set, read-modify-write, macro, call)
       "alias" set / out / if / for / with on the whole pool (can-alias subset)
     """
     P = list(pool)
@@ -581,6 +589,21 @@ def alphabet(pool, profile):
         a["for"] = [(x, "l12", None)]
         a["loopctl"] = [("break",)]
         a["if"] = [(("flag", "f"),)]
+    elif profile == "macro5":
+        # one variable and one parameterless macro: closure capture, enumerated deepest
+        x = P[0]
+        a["out"] = [V(x)]
+        a["set"] = [(x, C(1)), (x, ("add1", V(x)))]
+        a["macro"] = [()]
+        a["call"] = [("call", MACRO, (), ())]
+    elif profile == "deep1":
+        # one variable, the scope-opening statements only: enumerated deepest
+        x = P[0]
+        a["out"] = [V(x)]
+        a["set"] = [(x, C(1)), (x, ("add1", V(x)))]
+        a["if"] = [(("flag", "f"),)]
+        a["for"] = [(x, "l12", None)]
+        a["with"] = [()]
     elif profile == "alias5":
         # three variables chained by copies, for the deepest bound
         x, y, z = P[0], P[1], P[2]
@@ -718,6 +741,7 @@ def _enum(pool, profile, max_depth):
 TOP = (0, False, False)
 
 
+PROFILES = ("full", "mid", "core", "tiny", "tiny2", "tiny3", "macro5", "deep1", "alias5", "alias")
 SYMMETRIC_PROFILES = ("full", "alias")
 
 
